@@ -61,3 +61,46 @@ structure GExcl (s : S) : Prop where
   d1 : 0 < s.trigger → 0 < lwA s + s.tRecheck + tally aRun s.adders + s.tRun + spawnP s
 
 end Netpoll.Shard
+
+namespace Netpoll.Shard
+
+/-- array lengths and shard indices in range -/
+structure GStruct (s : S) : Prop where
+  s1 : s.list.length = s.size ∧ s.locks.length = s.size ∧ s.getters.length = s.size
+  s2 : tally (aBadShard s.size) s.adders = 0
+
+/-- lock words count their holders (so the critical sections are exclusive) -/
+structure GLock (s : S) : Prop where
+  l1 : ∀ (sh v : Nat), s.locks[sh]? = some v → v = tally (aLk sh) s.adders + wLk s sh
+  l2 : s.listLock = tally aLL s.adders
+  l3 : ∀ (sh v : Nat), s.locks[sh]? = some v → v ≤ 1
+  l4 : s.listLock ≤ 1
+
+theorem shardOf_lt {i n sh : Nat} (hn : 0 < n) (h : shardOf i n = some sh) : sh < n := by
+  simp only [shardOf] at h
+  split at h
+  · cases h
+  · rename_i hneg
+    cases h
+    have h1 : Int.tmod (wrap32 i) (n : Int) < (n : Int) := Int.tmod_lt_of_pos _ (by omega)
+    omega
+
+end Netpoll.Shard
+
+namespace Netpoll.Shard
+
+/-- the trigger ring: positions, contents (ghost FIFO `ring` = unconsumed entries) -/
+structure GRing (s : S) : Prop where
+  r1 : s.r = s.nRead % s.size ∧ s.w = s.nWritten % s.size
+  r3 : s.nWritten = s.nRead + s.ring.length
+  r4 : ∀ (k x : Nat), s.ring[k]? = some x → s.list[(s.nRead + 1 + k) % s.size]? = some x
+  r5 : ∀ (x : Nat), x ∈ s.ring → x < s.size
+  r6 : (s.wpc = .lock ∨ s.wpc = .swap ∨ s.wpc = .unlock) → s.shared < s.size
+
+/-- a shard is non-empty iff exactly one trigger for it is pending (adder in flight, ring entry, or held by the worker) -/
+structure GPend (s : S) : Prop where
+  p0 : tally aEmpty s.adders = 0
+  p1 : ∀ (sh : Nat) (g : List Nat), s.getters[sh]? = some g →
+        tally (aPend sh) s.adders + s.ring.count sh + wHoldEntry s sh = (if g = [] then 0 else 1)
+
+end Netpoll.Shard
